@@ -575,6 +575,8 @@ type connHarness struct {
 	lastID  int64
 	content int32
 	tie     bool
+	lastNew int64
+	skip    bool // the history contains a step the sequential model line cannot express
 }
 
 func (h *connHarness) fail(key, detail string) {
@@ -700,13 +702,87 @@ func runConn(c *hc.Ctx, r *hc.RNG) (line, impl string, tie, nontrivial bool, err
 			h.expectSalt(fmt.Sprintf("frame %d", f.msgID), f.salt)
 			h.out = append(h.out, strconv.FormatInt(f.salt, 10))
 			writes++
+		case k == 9 && r.Chance(15): // two requests in flight, both rejected with the same new salt
+			ns := int64(r.U64())
+			fmt.Fprintf(lb, " II=%d", ns)
+			c.Count("conn.event.two-concurrent-invokes-same-bad-salt")
+			h.skip = true
+			type inv struct{ done chan error }
+			var invs [2]inv
+			for j := range invs {
+				invs[j].done = make(chan error, 1)
+				go func(j int) { invs[j].done <- conn.Invoke(context.Background(), &mt.PingRequest{PingID: int64(1000 + j)}, anyOut{}) }(j)
+			}
+			var first []sentFrame
+			for len(first) < 2 {
+				select {
+				case f := <-tr.frames:
+					first = append(first, f)
+				case <-time.After(watchdog()):
+					dumpStacks()
+					return lb.String(), "", false, false, fmt.Errorf("concurrent Invokes wrote %d frames within the watchdog (input %s)", len(first), lb.String())
+				}
+			}
+			sort.Slice(first, func(a, b int) bool { return first[a].msgID < first[b].msgID })
+			for _, f := range first {
+				h.newMessage(f, true)
+			}
+			h.expectSalt(fmt.Sprintf("frame %d", first[0].msgID), first[0].salt)
+			for _, f := range first {
+				h.deliver(&mt.BadServerSalt{BadMsgID: f.msgID, BadMsgSeqno: int(f.seqNo), ErrorCode: 48, NewServerSalt: ns})
+			}
+			// each request must be sent exactly once more, with the server's salt
+			resent := map[int64]int{}
+			var errs []error
+			d0, d1 := invs[0].done, invs[1].done
+			returned, answered := 0, 0
+			for returned < 2 {
+				select {
+				case f := <-tr.frames:
+					resent[f.msgID]++
+					answered++
+					if f.salt != ns {
+						h.fail("badsalt-resend-salt", fmt.Sprintf("retransmission of %d carries salt %d, the server's new salt is %d", f.msgID, f.salt, ns))
+					}
+					if answered > 2 {
+						h.fail("badsalt-resent-more-than-once", fmt.Sprintf("request %d written again", f.msgID))
+					}
+					h.deliver(&proto.Result{RequestMessageID: f.msgID, Result: encode(&mt.MsgsAck{MsgIDs: []int64{1}}).Buf})
+				case e := <-d0:
+					errs, d0, returned = append(errs, e), nil, returned+1
+				case e := <-d1:
+					errs, d1, returned = append(errs, e), nil, returned+1
+				case <-time.After(watchdog()):
+					dumpStacks()
+					return lb.String(), "", false, false, fmt.Errorf("concurrent Invokes did not complete within the watchdog (input %s)", lb.String())
+				}
+			}
+			for _, f := range first {
+				if resent[f.msgID] != 1 {
+					h.fail("badsalt-resend-count", fmt.Sprintf("two requests were rejected with the same new salt %d; request %d was re-sent %d times (Invoke results %v)", ns, f.msgID, resent[f.msgID], errs))
+				}
+			}
+			h.cur = ns
+			h.oracle = newKnown()
+			for drained := false; !drained; {
+				select {
+				case <-tr.frames:
+					h.fail("badsalt-resent-more-than-once", "extra frame after both concurrent requests completed")
+				default:
+					drained = true
+				}
+			}
+			writes += 2
 		default: // Invoke with scripted reactions
 			var rs []reaction
 			for {
 				x := reaction{kind: "result", ackFirst: r.Chance(30)}
 				switch r.Intn(6) {
 				case 0, 1, 2:
-					x.kind, x.code, x.newSalt = "badsalt", 48, int64(r.U64())
+					// the server's new salt: fresh, or the salt the connection already uses, or the
+					// one a previous request was told (requests rejected concurrently get the same)
+					x.kind, x.code, x.newSalt = "badsalt", 48, hc.Pick(r, int64(r.U64()), int64(r.U64()), h.cur, h.lastNew)
+					h.lastNew = x.newSalt
 				case 3:
 					x.kind, x.code = "badmsg", hc.Pick(r, 16, 17, 32, 33, 48, 64)
 					if r.Chance(20) {
@@ -827,7 +903,7 @@ func runConn(c *hc.Ctx, r *hc.RNG) (line, impl string, tie, nontrivial bool, err
 	if len(h.out) == 0 {
 		h.out = []string{"-"}
 	}
-	return lb.String(), strings.Join(h.out, " "), h.tie, writes >= 2, nil
+	return lb.String(), strings.Join(h.out, " "), h.tie || h.skip, writes >= 2, nil
 }
 
 // ---------------------------------------------------------------------------------- part C: the refresh loop, through Run
